@@ -9,7 +9,7 @@ use re::render::shader::{FragmentShader, VertexShader};
 use re::render::{render, Context, Framebuf, View};
 use re::util::buf::Buf2;
 use std::cmp::Ordering;
-use std::collections::{HashMap, HashSet, VecDeque};
+use std::collections::{HashSet, VecDeque};
 use vlib::pipe::*;
 use vlib::*;
 
@@ -318,12 +318,11 @@ fn explore_order(scene: &Scene, r: &mut Report, scene_id: u64) {
     // BFS over states (mask, colour, depth)
     type St = (u32, Vec<u32>, Vec<u32>);
     let init: St = (0, (0..px).map(color_sentinel).collect(), (0..px).map(|p| depth_sentinel(p).to_bits()).collect());
-    let mut seen: HashMap<St, Vec<(Vec<usize>, usize)>> = HashMap::new();
-    seen.insert(init.clone(), vec![]);
-    let mut queue: VecDeque<St> = VecDeque::from([init]);
+    let mut seen: HashSet<St> = HashSet::new();
+    seen.insert(init.clone());
+    let mut queue: VecDeque<(St, Vec<(Vec<usize>, usize)>)> = VecDeque::from([(init, vec![])]);
     let mut terminals: HashSet<(Vec<u32>, Vec<u32>)> = HashSet::new();
-    while let Some(st) = queue.pop_front() {
-        let hist = seen[&st].clone();
+    while let Some((st, hist)) = queue.pop_front() {
         r.states += 1;
         let full = (1u32 << n) - 1;
         if st.0 == full { terminals.insert((st.1.clone(), st.2.clone())); continue; }
@@ -355,13 +354,13 @@ fn explore_order(scene: &Scene, r: &mut Report, scene_id: u64) {
             }
             // canonical state: exempt (tied) pixels normalised so that they cannot split states
             let key: St = (mask, out.color.iter().enumerate().map(|(p, c)| if exp[p].is_some() { *c } else { 0 }).collect(), nd.iter().enumerate().map(|(p, d)| if exp[p].is_some() { *d } else { 0 }).collect());
-            if !seen.contains_key(&key) { seen.insert(key.clone(), h); queue.push_back((mask, out.color.clone(), nd)); seen.entry((mask, out.color, key.2.clone())).or_insert_with(Vec::new); }
+            if seen.insert(key) { queue.push_back(((mask, out.color.clone(), nd), h)); }
         }}
     }
     if terminals.len() > 1 { r.h("multiple-terminal-buffers(tied pixels only)"); }
     // second clause: depth test off + back-to-front sort == depth-buffered image when depth ranges are disjoint
-    let zr: Vec<(f32, f32)> = scene.tris.iter().map(|t| { let z: Vec<f32> = t.v.iter().map(|p| p[2]).collect(); (z.iter().cloned().fold(f32::MAX, f32::min), z.iter().cloned().fold(f32::MIN, f32::max)) }).collect();
-    let all_pos_w = scene.tris.iter().all(|t| t.v.iter().all(|p| p[3] == t.v[0][3] && p[3] > 0.0));
+    let zr: Vec<(f32, f32)> = scene.tris.iter().map(|t| { let z: Vec<f32> = t.v.iter().map(|p| p[3]).collect(); (z.iter().cloned().fold(f32::MAX, f32::min), z.iter().cloned().fold(f32::MIN, f32::max)) }).collect();
+    let all_pos_w = scene.tris.iter().all(|t| t.v.iter().all(|p| p[3] > 0.0));
     let disjoint = all_pos_w && (0..n).all(|i| (0..n).all(|j| i == j || zr[i].1 < zr[j].0 || zr[j].1 < zr[i].0));
     if disjoint {
         r.eval();
@@ -380,39 +379,45 @@ fn explore_order(scene: &Scene, r: &mut Report, scene_id: u64) {
 }
 
 fn order_pool() -> Vec<STri> {
-    // screen-space style triangles with constant w per triangle (clean depth ranges) and perspective ones (interpenetration)
-    let mut pool = vec![];
-    let mk = |v: [V4; 3], a: f32| STri { v, a: [a, a + 0.01, a + 0.02] };
-    // flat layers at different depths, different footprints
-    pool.push(mk([[-0.9, -0.9, 0.1, 1.0], [0.9, -0.8, 0.1, 1.0], [-0.1, 0.9, 0.1, 1.0]], 0.1));
-    pool.push(mk([[-0.7, 0.8, 0.3, 1.0], [0.8, 0.7, 0.3, 1.0], [0.0, -0.9, 0.3, 1.0]], 0.2));
-    pool.push(mk([[-0.9, -0.2, 0.5, 1.0], [0.9, -0.3, 0.5, 1.0], [0.9, 0.6, 0.5, 1.0]], 0.3));
-    pool.push(mk([[-0.5, -0.9, -0.2, 1.0], [0.7, 0.2, -0.2, 1.0], [-0.8, 0.7, -0.2, 1.0]], 0.4));
-    // same footprint as #0 at another depth (identical screen footprints)
-    pool.push(mk([[-0.9, -0.9, 0.6, 1.0], [0.9, -0.8, 0.6, 1.0], [-0.1, 0.9, 0.6, 1.0]], 0.5));
-    // interpenetrating: z varies across the triangle
-    pool.push(mk([[-0.9, -0.5, -0.4, 1.0], [0.9, -0.5, 0.8, 1.0], [0.0, 0.9, 0.2, 1.0]], 0.6));
-    pool.push(mk([[-0.9, 0.5, 0.8, 1.0], [0.9, 0.5, -0.4, 1.0], [0.0, -0.9, 0.2, 1.0]], 0.7));
-    // perspective triangles (different w): one partially clipped by the near plane, one behind
-    pool.push(mk([[-1.0, -1.0, 0.5, 2.0], [1.5, -0.5, 1.0, 1.5], [0.0, 1.2, -0.2, 0.5]], 0.8));
-    pool.push(mk([[-1.5, 0.5, -1.5, 1.0], [1.0, 1.0, 0.5, 1.0], [0.5, -1.5, 0.9, 2.0]], 0.9));
-    pool.push(mk([[0.2, 0.2, 0.0, 1.0], [0.9, 0.3, 0.0, 1.0], [0.5, 0.9, 0.0, 1.0]], 0.15));
-    // culled away completely (outside the right plane)
-    pool.push(mk([[1.5, 0.0, 0.0, 1.0], [2.5, 0.5, 0.0, 1.0], [2.0, -0.5, 0.0, 1.0]], 0.25));
-    // reversed winding of #1 at yet another depth
-    pool.push(mk([[0.0, -0.9, 0.45, 1.0], [0.8, 0.7, 0.45, 1.0], [-0.7, 0.8, 0.45, 1.0]], 0.35));
-    pool.push(mk([[-0.3, -0.3, 0.7, 1.0], [0.4, -0.2, -0.6, 1.0], [0.1, 0.5, 0.2, 1.0]], 0.45));
-    pool.push(mk([[-0.95, -0.95, 0.9, 1.0], [0.95, -0.95, 0.9, 1.0], [0.0, 0.95, 0.9, 1.0]], 0.55));
-    pool
+    // Triangles given by NDC footprint and view depth w per vertex, turned into clip space with a real
+    // perspective depth mapping (near 0.1, far 10), so that 1/w (depth buffer) and clip z (depth sort) agree.
+    let (e22, e23) = (10.1f32 / 9.9, -2.0f32 / 9.9);
+    let mk = |xy: [[f32; 2]; 3], w: [f32; 3], a: f32| STri { v: std::array::from_fn(|k| [xy[k][0] * w[k], xy[k][1] * w[k], e22 * w[k] + e23, w[k]]), a: [a, a + 0.01, a + 0.02] };
+    let f0 = [[-0.9, -0.9], [0.9, -0.8], [-0.1, 0.9]];
+    let f1 = [[-0.7, 0.8], [0.8, 0.7], [0.0, -0.9]];
+    vec![
+        // flat layers at distinct depths with different footprints
+        mk(f0, [1.0; 3], 0.1),
+        mk(f1, [2.0; 3], 0.2),
+        mk([[-0.9, -0.2], [0.9, -0.3], [0.9, 0.6]], [3.0; 3], 0.3),
+        // very near layer: summed clip z is negative (w < 0.198)
+        mk([[-0.5, -0.9], [0.7, 0.2], [-0.8, 0.7]], [0.15; 3], 0.4),
+        // same footprint as #0 at another depth
+        mk(f0, [4.0; 3], 0.5),
+        // interpenetrating pair: depth varies across the triangle and the order flips inside the overlap
+        mk([[-0.9, -0.5], [0.9, -0.5], [0.0, 0.9]], [0.5, 6.0, 2.0], 0.6),
+        mk([[-0.9, 0.5], [0.9, 0.5], [0.0, -0.9]], [6.0, 0.5, 2.0], 0.7),
+        // partially clipped by the near plane (one vertex at w < near) and by the side planes
+        mk([[-1.0, -1.0], [1.5, -0.5], [0.0, 1.2]], [2.0, 1.5, 0.05], 0.8),
+        mk([[-1.5, 0.5], [1.0, 1.0], [0.5, -1.5]], [1.0, 1.0, 2.0], 0.9),
+        mk([[0.2, 0.2], [0.9, 0.3], [0.5, 0.9]], [1.25; 3], 0.15),
+        // culled away completely (outside the right plane)
+        mk([[1.5, 0.0], [2.5, 0.5], [2.0, -0.5]], [1.0; 3], 0.25),
+        // reversed winding of #1 at yet another depth
+        mk([f1[0], f1[2], f1[1]], [2.5; 3], 0.35),
+        mk([[-0.3, -0.3], [0.4, -0.2], [0.1, 0.5]], [5.0, 0.3, 1.0], 0.45),
+        // far backdrop
+        mk([[-0.95, -0.95], [0.95, -0.95], [0.0, 0.95]], [8.0; 3], 0.55),
+    ]
 }
 
 fn run_order(cfg: &Cfg) -> ! {
     let quick = cfg.quick();
     let pool = order_pool();
-    let np = if quick { 10 } else { pool.len() };
+    let np = pool.len();
     let mut scenes: Vec<Vec<usize>> = vec![];
-    for a in 0..np { for b in a + 1..np { for c in b + 1..np { scenes.push(vec![a, b, c]); if !quick || (a + b + c) % 4 == 0 { for d in c + 1..np { if quick && scenes.len() % 3 != 0 { continue; } scenes.push(vec![a, b, c, d]); } } } } }
-    if !quick { for s in [[0, 1, 5, 6, 12], [2, 3, 4, 7, 13], [0, 4, 8, 9, 11]] { scenes.push(s.to_vec()); } }
+    for a in 0..np { for b in a + 1..np { scenes.push(vec![a, b]); for c in b + 1..np { scenes.push(vec![a, b, c]); for d in c + 1..np { scenes.push(vec![a, b, c, d]); if !quick { for e in d + 1..np { scenes.push(vec![a, b, c, d, e]); } } } } } }
+    if !quick { for s in [[0, 1, 5, 6, 12, 13], [2, 3, 4, 7, 8, 9]] { scenes.push(s.to_vec()); } }
     let ns = scenes.len() as u64;
     let mut rep = par_range(cfg, ns, |i, r| {
         let sc = Scene { tris: scenes[i as usize].iter().map(|&k| pool[k].clone()).collect(), bw: 8, bh: 8, vp: (0, 0, 8, 8) };
@@ -421,7 +426,7 @@ fn run_order(cfg: &Cfg) -> ! {
     });
     rep.set("scenes", ns);
     rep.finish(cfg, "model_checking",
-        "explicit-state search per scene of n<=4 (thorough <=5) triangles on an 8x8 Framebuf: state = (set of submitted triangles, colour buffer, depth buffer); transition = one real render() call with ANY non-empty ordered subset of the not yet submitted triangles x depth_sort in {None, FrontToBack, BackToFront}; states deduplicated on the full tuple; invariant in every state: each pixel holds colour and depth of the nearest (largest 1/w) submitted triangle covering it, where coverage and depth per triangle come from solo renders (differential oracle) and pixels with exactly equal depths are exempt; plus: depth test off + BackToFront == depth-buffered image for scenes with disjoint depth ranges. Scenes: all 3- and 4-subsets of a 14-triangle pool with overlapping, interpenetrating, partially clipped, culled-away and coincident-footprint members.",
+        "explicit-state search per scene of n<=4 (thorough <=6) triangles on an 8x8 Framebuf: state = (set of submitted triangles, colour buffer, depth buffer); transition = one real render() call with ANY non-empty ordered subset of the not yet submitted triangles x depth_sort in {None, FrontToBack, BackToFront}; states deduplicated on the full tuple; invariant in every state: each pixel holds colour and depth of the nearest (largest 1/w) submitted triangle covering it, where coverage and depth per triangle come from solo renders (differential oracle) and pixels with exactly equal depths are exempt; plus: depth test off + BackToFront == depth-buffered image for scenes with disjoint depth ranges. Scenes: all 2-, 3- and 4-subsets (thorough: also all 5-subsets and two 6-subsets) of a 14-triangle pool with overlapping, interpenetrating, partially clipped, culled-away and coincident-footprint members.",
         &["per-triangle coverage/depth taken from solo renders (validated separately by C01/C04/C05)", "depth test Less, depth writes on"]);
 }
 
@@ -524,6 +529,54 @@ fn check_cull(t: &STri, bw: u32, bh: u32, vp: (u32, u32, u32, u32), kind: Target
     r.nontrivial();
 }
 
+type VtxS = re::geom::Vertex3<re::geom::Normal3>;
+struct SolidShader;
+impl<'a> VertexShader<VtxS, (&'a Mat4x4<RealToProj<re::render::Model>>, ())> for SolidShader {
+    type Output = Vertex<ClipVec, f32>;
+    fn shade_vertex(&self, v: VtxS, (m, _): (&'a Mat4x4<RealToProj<re::render::Model>>, ())) -> Self::Output { vertex(m.apply(&v.pos), 0.5 + 0.1 * (v.pos.x() + 2.0 * v.pos.y() + 3.0 * v.pos.z())) }
+}
+impl FragmentShader<f32> for SolidShader {
+    fn shade_fragment(&self, f: Frag<f32>) -> Option<re::math::color::Color4> { let [a, b, c, d] = f.var.to_bits().to_be_bytes(); Some(re::math::color::rgba(a, b, c, d)) }
+}
+
+/// Convention-free culling check: a closed convex solid looks the same with back-face culling as without,
+/// and different with front-face culling.
+fn check_solid_culling(si: usize, vi: usize, r: &mut Report) {
+    use re::math::angle::degs;
+    use re::math::mat::{rotate_x, rotate_y, translate, RealToReal};
+    use re::math::vec3;
+    use re::render::{Camera, Model, World};
+    use re_geom::solids::*;
+    r.eval();
+    let (name, mesh): (&str, re::geom::Mesh<re::geom::Normal3>) = match si {
+        0 => ("Tetrahedron", Tetrahedron.build()), 1 => ("Box", Box::cube(1.4).build()), 2 => ("Octahedron", Octahedron.build()), 3 => ("Dodecahedron", Dodecahedron.build()),
+        4 => ("Icosahedron", Icosahedron.build()), 5 => ("Sphere", Sphere { sectors: 9, segments: 6, radius: 1.0 }.build()), 6 => ("Cylinder", Cylinder { sectors: 7, segments: 2, capped: true, radius: 0.8 }.build()),
+        7 => ("Cone", Cone { sectors: 8, segments: 2, capped: true, base_radius: 1.0, apex_radius: 0.3 }.build()), _ => ("Capsule", Capsule { sectors: 6, body_segments: 1, cap_segments: 3, radius: 0.6 }.build()),
+    };
+    let (ax, ay) = [(0.0f32, 0.0f32), (25.0, 40.0), (-70.0, 10.0), (90.0, 0.0), (180.0, 33.0), (13.0, -155.0)][vi];
+    let to_world: Mat4x4<RealToReal<3, Model, World>> = rotate_x(degs(ax)).then(&rotate_y(degs(ay))).then(&translate(vec3(0.1, -0.05, 4.0))).to();
+    let dims = (24u32, 20u32);
+    let cam = Camera::new(dims).mode(Mat4x4::<RealToReal<3, World, View>>::identity()).perspective(1.5, 0.5..20.0);
+    let draw = |cull: Option<FaceCull>| -> Result<(Vec<u32>, Vec<f32>), String> {
+        let mut fb = Framebuf { color_buf: Buf2::<u32>::new_from(dims, (0..).map(|i| color_sentinel(i as usize))), depth_buf: Buf2::<f32>::new_from(dims, std::iter::repeat(0.0f32)) };
+        let ctx = Context { face_cull: cull, ..Context::default() };
+        caught(|| cam.render(&mesh.faces, &mesh.verts, &to_world, &SolidShader, (), &mut fb, &ctx))?;
+        Ok((fb.color_buf.data().to_vec(), fb.depth_buf.data().to_vec()))
+    };
+    let case = || obj! {"kind" => "solid", "solid" => si, "view" => vi};
+    let (Ok(none), Ok(back), Ok(front)) = (draw(None), draw(Some(FaceCull::Back)), draw(Some(FaceCull::Front))) else { r.violation(format!("solid-render-panic|{name}|view{vi}"), "render panicked".into(), case()); return; };
+    let n = (dims.0 * dims.1) as usize;
+    let drawn = (0..n).filter(|&p| none.0[p] != color_sentinel(p)).count();
+    if drawn < 20 { r.violation(format!("solid-not-visible|{name}|view{vi}"), format!("only {drawn} pixels drawn"), case()); return; }
+    // Back == None, except where front and back surfaces are (nearly) depth-tied along the silhouette
+    let mut diff_back = 0;
+    for p in 0..n { if none.0[p] != back.0[p] { let (a, b) = (none.1[p], back.1[p]); if (a - b).abs() > 2e-3 * a.abs().max(b.abs()) { diff_back += 1; } } }
+    let diff_front = (0..n).filter(|&p| none.0[p] != front.0[p]).count();
+    if diff_back > 0 { r.violation(format!("solid-back-cull-changes-image|{name}|view{vi}"), format!("{diff_back} pixels differ (beyond silhouette depth ties) between face_cull None and Back for a closed convex solid: Back culling removes visible faces"), case()); return; }
+    if diff_front < drawn / 4 { r.violation(format!("solid-front-cull-same-image|{name}|view{vi}"), format!("only {diff_front} of {drawn} pixels differ between face_cull None and Front: Front culling does not remove the visible faces"), case()); return; }
+    r.nontrivial();
+}
+
 fn run_config(cfg: &Cfg) -> ! {
     let quick = cfg.quick();
     let mut rep = Report::new();
@@ -561,6 +614,7 @@ fn run_config(cfg: &Cfg) -> ! {
         let (t, v, k) = (&tris[(i % nt) as usize], cvps[(i / nt % 6) as usize], i / nt / 6);
         check_cull(t, v.0, v.1, v.2, [TargetKind::Owned, TargetKind::ColorOnly][k as usize], r);
     }));
+    rep.merge(par_range(cfg, 9 * 6, |i, r| check_solid_culling((i % 9) as usize, (i / 9) as usize, r)));
     // statistics accumulate over calls, including calls in which nothing survives
     for (si, sc) in scenes.iter().enumerate().take(if quick { 60 } else { scenes.len() }) {
         rep.eval();
@@ -580,7 +634,7 @@ fn run_config(cfg: &Cfg) -> ! {
     }
     rep.sample(0, || obj! {"scene" => "2 overlapping triangles, 8x6 buffer viewport (1,2)..(7,5)", "flags" => "cull Front, sort BackToFront, test Greater, color_write off, depth_write on", "discard" => "Parity", "target" => "ColorOnly"});
     rep.finish(cfg, "exploration",
-        "scenes (1-3 pool triangles in both vertex orders, lattice triangles, the empty list) x all 144 Context combinations (face_cull x depth_sort x depth_test x color_write x depth_write) x fragment shader {never, always, checkerboard discard} x target {Framebuf, colour-only}: write masks leave their buffer untouched, colour writes do not influence depth, disabled test => every generated fragment is shaded, discarding shader writes nothing, and Stats (calls, prims, verts, frags in/out) equal independent counts (submitted sizes, harness-side clip class and on-screen winding, shader invocation counters of twin runs, changed-pixel counts), accumulate over calls incl. calls where nothing survives and the Batch door; culling: every unclipped triangle in both vertex orders x 3 modes x 6 viewports incl. axis-mirrored ones x 2 targets: exactly one order drawn, chosen by the harness's own on-screen signed area, both drawn and equal away from edge pixels when off. non-trivial = configuration fully judged.",
+        "scenes (1-3 pool triangles in both vertex orders, lattice triangles, the empty list) x all 144 Context combinations (face_cull x depth_sort x depth_test x color_write x depth_write) x fragment shader {never, always, checkerboard discard} x target {Framebuf, colour-only}: write masks leave their buffer untouched, colour writes do not influence depth, disabled test => every generated fragment is shaded, discarding shader writes nothing, and Stats (calls, prims, verts, frags in/out) equal independent counts (submitted sizes, harness-side clip class and on-screen winding, shader invocation counters of twin runs, changed-pixel counts), accumulate over calls incl. calls where nothing survives and the Batch door; culling: every unclipped triangle in both vertex orders x 3 modes x 6 viewports incl. axis-mirrored ones x 2 targets: exactly one order drawn, chosen by the harness's own on-screen signed area, both drawn and equal away from edge pixels when off; convention-free cross-check: nine closed convex solids from geom::solids x six view directions through Camera::render look the same with Back culling as without (up to silhouette depth ties) and different with Front culling. non-trivial = configuration fully judged.",
         &["Back-face convention: positive on-screen signed area (x1-x0)(y2-y0)-(y1-y0)(x2-x0) is a back face, as implied by the solids' outward normals (C15)", "prims.o is judged only for scenes without clipped triangles"]);
 }
 
@@ -602,6 +656,7 @@ fn main() {
                 }
                 "order" | "painter" => explore_order(&scene_from(c.get("scene").unwrap()), r, 0),
                 "config" => check_config(&scene_from(c.get("scene").unwrap()), c.get("flags").unwrap().as_u64().unwrap() as u32, match c.get("discard").and_then(|j| j.as_str()).unwrap_or("") { "Always" => Discard::Always, "Parity" => Discard::Parity, _ => Discard::Never }, kind(c), r),
+                "solid" => check_solid_culling(c.get("solid").unwrap().as_u64().unwrap() as usize, c.get("view").unwrap().as_u64().unwrap() as usize, r),
                 "cull" => { let s = scene_from(c.get("scene").unwrap()); check_cull(&s.tris[0], s.bw, s.bh, s.vp, kind(c), r) }
                 k => machinery_error(&format!("replay kind {k} unsupported")),
             }
